@@ -1,0 +1,14 @@
+//go:build verif
+
+// Contracts for this plugin, checked by /verif/govc (comment-only file).
+
+package ipv6only
+
+//@ func Handler4
+//@   implements handler.Handler4
+//@   modifies everything
+//@   ensures ret0 == resp
+//@   ensures[C17:v6only-iff-explicitly-listed] ret1 <==> explicit4(req.Options, 108)
+//@   ensures[C17:v6only-option-sent] explicit4(req.Options, 108) ==> (has(resp.Options, 108) && resp.Options[108] == optenc(opt_dur(108, v6only_wait)))
+//@   ensures[C17:v6only-not-sent-otherwise] !explicit4(req.Options, 108) ==> ((has(resp.Options, 108) <==> old(has(resp.Options, 108))) && resp.Options[108] == old(resp.Options[108]))
+//@   ensures[C17:other-options-untouched] forall k uint8: k != 108 ==> ((has(resp.Options, k) <==> old(has(resp.Options, k))) && resp.Options[k] == old(resp.Options[k]))
